@@ -143,7 +143,7 @@ async fn episode(p: &EpParams, sh: Arc<Shared>) -> EpReport {
                 if t_start.elapsed() >= phase {
                     break;
                 }
-                let kind = *r.pick(&["CreatePush", "CreatePush", "CreatePush", "GetSub", "DeleteSub", "ListSubs", "PullRI", "Publish", "Ack", "GetRegistered"]);
+                let kind = *r.pick(&["CreatePush", "CreatePush", "CreatePush", "GetSub", "DeleteSub", "ListSubs", "PullRI", "Publish", "Ack", "GetRegistered", "SharedCreate", "SharedCreate", "SharedDelete", "SharedDelete"]);
                 let label = format!("{} client={} call={}", kind, c, i);
                 {
                     let mut l = sh.last_calls.lock().unwrap();
@@ -169,6 +169,17 @@ async fn episode(p: &EpParams, sh: Arc<Shared>) -> EpReport {
                         } else {
                             let _ = cx.get_sub(&plain).await;
                         }
+                    }
+                    // three names shared by all clients are created (each client with its own endpoint)
+                    // and deleted over and over: whoever holds a name at the end must be the one the
+                    // push registry knows under it
+                    "SharedCreate" => {
+                        let n = sub_name(1, 900 + r.below(3) as u32);
+                        let _ = cx.create_sub_full(&n, &t, 10, Some(&format!("{}/c{}", ENDPOINT, c)), Default::default()).await;
+                    }
+                    "SharedDelete" => {
+                        let n = sub_name(1, 900 + r.below(3) as u32);
+                        let _ = cx.delete_sub(&n).await;
                     }
                     "GetRegistered" => {
                         let _ = cx.get_sub(&sub_name(1, 1000 + r.below(registered as u64) as u32)).await;
@@ -212,6 +223,27 @@ async fn episode(p: &EpParams, sh: Arc<Shared>) -> EpReport {
         let _ = h.await;
     }
     push_loop.abort();
+    // hooked state vs the API for the shared names (no request is in flight any more)
+    tokio::time::sleep(Duration::from_millis(20)).await;
+    let reg: std::collections::BTreeMap<String, String> = w.reg.entries().into_iter().map(|(n, c)| (n.to_string(), c.endpoint.clone())).collect();
+    for i in 0..3u32 {
+        let n = sub_name(1, 900 + i);
+        match c0.get_sub(&n).await {
+            Ok(v) => {
+                if reg.get(&n) != v.push_endpoint.as_ref() {
+                    rep.viol("C14", "C14:registry-differs-from-subscription:mt", format!("{} exists with push endpoint {:?} but the push registry holds {:?} for it", n, v.push_endpoint, reg.get(&n)));
+                    rep.viol("C11", "C11:registry-differs-from-subscription:mt", format!("{} exists with push endpoint {:?} but the push registry holds {:?} for it", n, v.push_endpoint, reg.get(&n)));
+                }
+                rep.inc("shared_names_alive_at_the_end");
+            }
+            Err(_) => {
+                if reg.contains_key(&n) {
+                    rep.viol("C14", "C14:registry-not-cleared:mt", format!("{} does not exist but the push registry still lists it", n));
+                }
+            }
+        }
+        rep.inc("shared_names_checked");
+    }
     let walked = hook_total() - walks_before;
     rep.add("hook_points_during_client_phase", walked);
     let kc = kinds_count.lock().unwrap().clone();
